@@ -64,6 +64,10 @@
 //                  0 / 1 (run P vs in-memory run M) and as restart from every saved image (initial estimate := file, start at
 //                  subiteration number := k+1) = bitwise the in-memory path (operation `init` for the model)
 //   TOF sens     : KNOWN-CANDIDATE em-formula:tof-subset-sensitivity-by-symmetries-of-non-tof-projector (see known_tof_sens_finding)
+//   finite       : a finite non-negative image (not near overflow) never becomes non-finite; the two classes in which it does on the
+//                  unchanged tree are pinned (TOF, every non-finite voxel has sensitivity 0 and a positive numerator and is seen by the
+//                  TOF matrix): the one above and KNOWN-CANDIDATE em-formula:tof-voxels-seen-by-tof-matrix-only-have-sensitivity-0
+//                  (see known_tof_zero_sens_finding)
 // Usage: c07_osmaposl <seed> <quick|thorough> <opsfile> <implfile>
 #include "stir_fixtures.h"
 #include "common.h"
@@ -150,6 +154,25 @@ known_tof_sens_finding(const std::string& where)
                  "(views = i mod n; the TOF projector has no view symmetries) by the sensitivity of ANOTHER set of views (those "
                  "related by the symmetries of the non-TOF sensitivity projector to its basic views = i mod n), e.g. 0 for a subset "
                  "without basic views (images become inf) [%s]\n",
+                 where.c_str());
+  else if (seen <= 6)
+    std::fprintf(g_orc, "# also: %s\n", where.c_str());
+}
+
+// Third class: TOF data, view symmetries requested, image wider than the field of view of the non-TOF projector WITH its view
+// symmetries: some edge voxels are seen by the TOF matrix (numerator; no view symmetries) but by no bin of the non-TOF matrix
+// with view symmetries (STIR's default sensitivity): s = 0, numerator > 0, the voxel becomes inf - also with ONE subset.
+static void
+known_tof_zero_sens_finding(const std::string& where)
+{
+  static int seen = 0;
+  if (seen++ == 0)
+    std::fprintf(g_orc,
+                 "KNOWN-CANDIDATE em-formula:tof-voxels-seen-by-tof-matrix-only-have-sensitivity-0 TOF data, projector with view "
+                 "symmetries requested, default non-TOF sensitivity: voxels at the edge of the image that bins of the TOF matrix (no "
+                 "view symmetries) see but no bin of the non-TOF matrix with view symmetries sees have sensitivity 0 and a positive "
+                 "numerator A_S^T[y/(A_S lambda+a)]: the update makes them inf instead of lambda*numerator/s_S (any number of subsets, "
+                 "1 included) [%s]\n",
                  where.c_str());
   else if (seen <= 6)
     std::fprintf(g_orc, "# also: %s\n", where.c_str());
@@ -1087,6 +1110,55 @@ run_real_case(const std::string& name, const Geo& g, const Data& d, RunCfg c, vh
       if (!finite)
         {
           g_cov["real_nonfinite"]++;
+          // ORACLE: a finite non-negative image (not near overflow) never becomes non-finite ("non-negative images stay
+          // non-negative"; the formula is finite wherever s_S > 0 and 0 elsewhere).  The classes seen on the unchanged tree are
+          // pinned: every non-finite voxel must have sensitivity 0 in the implementation, a positive numerator, and be seen
+          // by the TOF matrix in this subset - anything else is an ORACLE-FAIL.
+          if (*std::min_element(before.begin(), before.end()) >= 0 && *std::max_element(before.begin(), before.end()) < 1e30F)
+            {
+              ++g_checks;
+              g_cov["real_nonfinite_judged"]++;
+              bool pinned = g.tof && !all_finite(after_update);
+              int bad = -1, first = -1;
+              bool sens_subset_differs = false;
+              if (g.tof)
+                {
+                  const double gam2 = 4. * (g.max_row + g.max_col + 16) * eps;
+                  Explicit ex = explicit_quantities(g, d, c, before, subset);
+                  Explicit alt = explicit_quantities(g, d, c, before, subset, true);
+                  for (int j = 0; j < g.nvox; ++j)
+                    {
+                      sens_subset_differs = sens_subset_differs || std::fabs(alt.sens[j] - ex.sens[j]) > gam2 * std::fabs(ex.sens[j]) + 1e-30;
+                      if (std::isfinite(after_update[j])) // (the image before an inter-iteration filter spreads the inf)
+                        continue;
+                      if (first < 0)
+                        first = j;
+                      if (!(sens[j] == 0.F && alt.sens[j] == 0. && gps[j] > 0.F && ex.sens_tof[j] > 0.))
+                        {
+                          pinned = false;
+                          bad = j;
+                        }
+                    }
+                }
+              const std::string where = "case=" + name + " k=" + std::to_string(k) + " [" + std::to_string(g.N) + " detectors x "
+                                        + std::to_string(g.R) + " rings, span " + std::to_string(g.span) + ", " + std::to_string(g.views)
+                                        + " views, " + std::to_string(g.tofbins) + " TOF bins, image " + std::to_string(g.nx) + "x"
+                                        + std::to_string(g.ny) + "x" + std::to_string(g.nz) + ", symmetry flags " + std::to_string(g.symflags)
+                                        + ", " + std::to_string(c.nsub) + " subsets, subset " + std::to_string(subset)
+                                        + (first >= 0 ? ", voxel " + std::to_string(first) + ": lambda " + vh::hex(before[first]) + ", numerator "
+                                                            + vh::hex(gps[first]) + ", s used " + vh::hex(sens[first])
+                                                      : std::string())
+                                        + "]";
+              if (pinned && c.nsub > 1 && c.use_subset_sens && sens_subset_differs)
+                known_tof_sens_finding(where + " (image becomes non-finite)");
+              else if (pinned)
+                known_tof_zero_sens_finding(where);
+              else
+                oracle_fail("a finite non-negative image became non-finite, " + where
+                            + (bad >= 0 ? " voxel " + std::to_string(bad) + ": lambda' " + vh::hex(after_update[bad]) + ", numerator " + vh::hex(gps[bad])
+                                              + ", s used " + vh::hex(sens[bad])
+                                        : ""));
+            }
           break;
         }
 
